@@ -245,6 +245,8 @@ def step (σ : St) (op obs : List String) : St × List Msg :=
     let contentOK := (content = showRead old) ∨ (content = hexOf σ.newB ∧ content ≠ "absent")
     let pf : List Msg :=
       if load = "old" ∨ load = "new" then []
+      else if contentOK ∧ load = "other" then
+        [.propfail "decode_encode" "lossy" s!"crash ({i},{j},{m}): complete snapshot at the target loads as a state that is neither the old nor the new one"]
       else if contentOK then
         [.propfail "never_refuses_own_file" "refused" s!"crash ({i},{j},{m}): complete snapshot at the target, loader answers {load}"]
       else
